@@ -92,12 +92,16 @@ Proof.
       unfold mdat_mem. fold (hdr_len large). rewrite sub_0, N.add_0_r.
       replace (8 <? hdr_len large) with large by (destruct large; reflexivity). reflexivity.
     + replace (hdr_len large + payloadLen - hdr_len large) with payloadLen by lia.
-      rewrite sub_length by lia. rewrite N.eqb_refl. cbn [rbind].
+      rewrite N.min_l by lia. rewrite sub_length by lia. rewrite N.eqb_refl. cbn [rbind].
       unfold mdat_mem. fold (hdr_len large).
       replace (8 <? hdr_len large) with large by (destruct large; reflexivity). reflexivity.
-  - unfold decode_mdat_lazily, rs_seek_cur. cbn [hlen hsize rpos rorc].
+  - unfold decode_mdat_lazily, rs_seek_cur, i64n. cbn [hlen hsize rpos rorc].
+    replace (hdr_len large + payloadLen <? 9223372036854775808) with true by lia.
     replace (Z.of_N (startPos + hdr_len large) + (Z.of_N (hdr_len large + payloadLen) - Z.of_N (hdr_len large)) <? 0)%Z
       with false by lia.
+    replace (9223372036854775807 <? Z.of_N (startPos + hdr_len large) + (Z.of_N (hdr_len large + payloadLen) - Z.of_N (hdr_len large)))%Z
+      with false by lia.
+    cbn [orb].
     unfold mdat_lazy.
     replace (8 <? hdr_len large) with large by (destruct large; reflexivity).
     repeat f_equal; lia.
